@@ -88,9 +88,12 @@ class JournalModel(object):
 
     def key(self, b):
         meta = b.vfs.files.get(PATH + '.meta')
-        return (tuple((len(c), c[:1], i, t) for c, i, t in b.ref), len(b.vfs.files[PATH]),
+        # the journal object's own scalar fields (write offset, dirty flag) and the file bytes are part of the
+        # state: two histories with equal contents but a different write position have different futures
+        hidden = tuple(sorted((k, v) for k, v in vars(b.j).items() if isinstance(v, (int, bool, bytes, str))))
+        return (tuple((len(c), c[:1], i, t) for c, i, t in b.ref), bytes(b.vfs.files[PATH]),
                 bytes(meta) if meta is not None else None, b.cur_commit, b.commit_set, b.depth,
-                b.crashes)
+                b.crashes, hidden)
 
     def outcome(self, b):
         return (tuple(len(c) for c, _, _ in b.ref), len(b.vfs.files[PATH]))
